@@ -151,6 +151,8 @@ def main(argv):
         for clause in mod.CLAUSES:
             if only and clause.name not in only:
                 continue
+            if clause.thorough_only and tier != "thorough":
+                continue
             total = clause.budget(tier)
             n = -(-total // nshards) if total > 0 else 0
             seed = derive_seed(vseed, pid, clause.name, 0 if clause.cross_shard else shard)
